@@ -74,7 +74,7 @@ fn new_palette_chunk(rng: &mut Rng, pal: &BTreeMap<u32, PalEntryM>) -> ChunkSpec
 }
 
 pub fn run(ctx: &Ctx) -> i32 {
-    let n = ctx.tier.pick(30_000u64, 500_000u64);
+    let n = ctx.tier.pick(150_000u64, 2_000_000u64);
     let mut opts = ObsOpts::structure_only();
     let sum = run_cases(ctx, n, |i| {
         let mut rng = Rng::derive(ctx.seed, "C11", i);
